@@ -47,6 +47,7 @@ CONSTANTS Roles,        \* connections of a client-death scenario: 0 bystander, 
           MaxStale      \* calls that may still return queued data after the death
 
 None == 0  Accepted == 1  Created == 2  Closed == 3  Destroyed == 4
+ClosedAgain == 5     \* connection_closed ran and returned non-zero: it is to be run again before anything else
 PNot == 0  PConn == 1  PIdle == 2  PSend == 3  PSendRecv == 4  PEvRecv == 5  PDisc == 6  PDone == 7
 Phases == PNot..PDone
 OpSend == 1  OpRecv == 2  OpSendvRecv == 3  OpEventRecv == 4
@@ -65,7 +66,7 @@ Init ==
 
 TypeOK ==
   /\ kind \in 0..3
-  /\ cst \in [Roles -> 0..2] /\ cphase \in [Roles -> Phases] /\ cb \in [Roles -> None..Destroyed]
+  /\ cst \in [Roles -> 0..2] /\ cphase \in [Roles -> Phases] /\ cb \in [Roles -> None..ClosedAgain]
   /\ \A r \in Roles : held[r] \in Nat \X Nat \X Nat
   /\ salive \in BOOLEAN /\ cconn \in 0..3 /\ okAfter \in Nat
 
@@ -107,8 +108,10 @@ EvCreated(r) == GCreated(r) /\ DoCb(r, Created)
 GMsg(r) == cb[r] = Created
 EvMsg(r) == GMsg(r) /\ UNCHANGED vars
 (* closed only for a client that is gone, and only after created was reported *)
-GClosed(r) == cb[r] = Created /\ Gone(r)
+GClosed(r) == cb[r] \in {Created, ClosedAgain} /\ Gone(r)
 EvClosed(r) == GClosed(r) /\ DoCb(r, Closed)
+(* ... with the value the application returned: non-zero = "not yet, call me again" (the destroyed callback must wait) *)
+EvClosedRet(r, ret) == GClosed(r) /\ DoCb(r, IF ret = 0 THEN Closed ELSE ClosedAgain)
 (* destroyed exactly once; after closed if created had been reported, without closed otherwise; only for a client that is gone *)
 GDestroyed(r) == cst[r] # 0 /\ (cb[r] = Closed \/ (cb[r] \in {None, Accepted} /\ Gone(r)))
 EvDestroyed(r) == GDestroyed(r) /\ DoCb(r, Destroyed)
@@ -153,5 +156,5 @@ GEndS(files) == cconn \in {0, 3} /\ (cconn = 3 => files = 0)
 EvEndS(files) == kind = 3 /\ GEndS(files) /\ UNCHANGED vars
 
 (* ---- invariants over any behaviour ---- *)
-CallbackSanity == \A r \in Roles : (cst[r] = 0 => cb[r] = None) /\ (cb[r] \in {Closed} => Gone(r))
+CallbackSanity == \A r \in Roles : (cst[r] = 0 => cb[r] = None) /\ (cb[r] \in {Closed, ClosedAgain} => Gone(r))
 =============================================================================
